@@ -279,3 +279,29 @@ func inplaceCanaryOK(buf []byte, from int) bool {
 	}
 	return true
 }
+
+// gcmCanon is the canonical prelude of every GCM scenario: one Seal and one Open of a
+// fixed message on the main thread, so that whatever the accelerated routines leave in
+// thread-local CPU state (vector registers the Go runtime never touches) is the same at
+// the start of every scenario, whatever ran before it in this process.
+var gcmCanonAEAD cipher.AEAD
+
+func gcmCanon() {
+	if !AsmAvailable() {
+		return
+	}
+	if gcmCanonAEAD == nil {
+		a, _, _, err := mkAEAD(aeadSpec{Key: "00112233445566778899aabbccddeeff", NonceSize: 12, TagSize: 16}, true)
+		if err != nil {
+			panic(err)
+		}
+		gcmCanonAEAD = a
+	}
+	// a failure here is not this scenario's finding; the scenarios themselves will show it
+	core.Catch(func() {
+		nonce := []byte("canonical-12")
+		msg := []byte("canonical prelude: thirty-three b")
+		ct := gcmCanonAEAD.Seal(nil, nonce, msg, nonce[:5])
+		gcmCanonAEAD.Open(nil, nonce, ct, nonce[:5])
+	})
+}
